@@ -46,4 +46,15 @@ def config(name, rng, tier):
         base.update(entry="single", unknown=["povm", rng.choice(["x", "z"])], cases=[{"estimator": "linear", "para": True, "eps_proj_physical": 1e-9}], parallel_mode={},
                     seed_kind=rng.choice(["int_default", "generator"]), init_with_seed=True, num_data=[100])
         return base
+    if name == "parent_tolerance":
+        # the caller set a non-default global tolerance before the run; worker processes must behave as the caller does
+        base["unknown"] = ["gate", rng.choice(["z90", "x90", "identity"])]
+        base["noise"] = ["none", {}, {}]
+        base["cases"] = [{"estimator": "plinear", "para": True, "eps_proj_physical": 1e-9, "mode_proj_order": "eq_ineq"}, {"estimator": "linear", "para": True, "eps_proj_physical": 1e-9}]
+        base["num_data"] = [100]
+        base["n_rep"] = 2
+        base["n_sample"] = 2
+        base["parent_atol"] = rng.choice([1e-6, 1e-4])
+        base["parallel_mode"] = rng.choice([{"per_sample_unit": 2}, {"per_estimator_unit": 2}, {"per_data_generation": 2, "per_estimator_execution": 2}])
+        return base
     raise ValueError(name)
